@@ -263,8 +263,12 @@ var c08Hostile = []func(n uint32) uint32{
 	func(n uint32) uint32 { return 1 << 20 },
 	func(n uint32) uint32 { return 1<<31 - 1 },
 	func(n uint32) uint32 { return 1<<32 - 1 },
+	func(n uint32) uint32 { return 1 << 29 },
+	func(n uint32) uint32 { return 1<<29 + 1 },
+	func(n uint32) uint32 { return 1 << 30 },
+	func(n uint32) uint32 { return 1 << 28 },
 }
-var c08HostileNames = []string{"0", "1", "n-1", "n+1", "2^20", "2^31-1", "2^32-1"}
+var c08HostileNames = []string{"0", "1", "n-1", "n+1", "2^20", "2^31-1", "2^32-1", "2^29", "2^29+1", "2^30", "2^28"}
 
 func c08Run(u *vfUnit) {
 	_ = c08Reg
